@@ -69,6 +69,18 @@ def burst_and_callers_rows(c):
             steps += [{"op": "connect", "conn": cn, "attr": {"uid": 0, "admin": 1, "dip": "169.254.169.254", "dport": 80, "helper": w}},
                       {"op": "request", "conn": cn, "id": cn, "method": "GET", "target": "/metadata/instance", "headers": [["Host", "h"]]},
                       {"op": "close", "conn": cn}]
+    # a caller that exec()s another program under the same pid between its denials: each denial is published under what the
+    # caller was running at that connection
+    steps.append({"op": "spawn", "name": "execer", "exe": sh, "args": ["-c", "sleep 1.2; exec sleep 30 0.0625"]})
+    steps.append({"op": "sleep", "ms": 150})
+    for i, pause in enumerate([0, 1700, 0]):
+        cn = "execer_%d" % i
+        if pause:
+            steps.append({"op": "sleep", "ms": pause})
+        steps += [{"op": "helper_exe", "name": "execer", "tag": cn + ":pre"},
+                  {"op": "connect", "conn": cn, "attr": {"uid": 0, "admin": 1, "dip": "169.254.169.254", "dport": 80, "helper": "execer"}},
+                  {"op": "request", "conn": cn, "id": cn, "method": "GET", "target": "/metadata/instance", "headers": [["Host", "h"]]},
+                  {"op": "helper_exe", "name": "execer", "tag": cn + ":post"}, {"op": "close", "conn": cn}]
     steps += [{"op": "sleep", "ms": 100}, {"op": "snapshot", "tag": "callers", "status_file": sf}]
     nb = 1000 if not thorough else 2500
     branches = []
@@ -95,6 +107,18 @@ def burst_and_callers_rows(c):
         den = sum(1 for i in range(k) if resp.get("%s_%d" % (w, i), {}).get("status") == 403)
         cnt = sum(x.get("count", 0) for x in entries if (x.get("processCmdLine") or "").endswith(w))
         rows.append({"e": "pub", "id": "caller-" + w, "denials": den, "inFile": cnt})
+    exe_at = {e["tag"]: e for e in ev if e["e"] == "HelperExe"}
+    after_exec = 0
+    for i in range(3):
+        cn = "execer_%d" % i
+        pre, post = exe_at.get(cn + ":pre", {}), exe_at.get(cn + ":post", {})
+        if pre.get("exe") and pre.get("exe") == post.get("exe") and os.path.basename(pre["exe"]) == "sleep" and resp.get(cn, {}).get("status") == 403:
+            after_exec += 1
+    if after_exec:
+        cnt = sum(x.get("count", 0) for x in entries if "0.0625" in (x.get("processCmdLine") or "")
+                  and os.path.basename(x.get("processFullPath") or "") == "sleep")
+        rows.append({"e": "pub", "id": "caller-after-exec", "denials": after_exec, "inFile": cnt})
+    c.extra["denials_after_exec"] = after_exec
     before = sum(x.get("count", 0) for x in entries)
     den = sum(1 for b in range(nb) if resp.get("b%d" % b, {}).get("status") == 403)
     if den < nb * 0.9:
@@ -120,6 +144,15 @@ def run(c):
         raise util.ToolError("status_burst driver: %s" % sb)
     brows.append({"e": "pub", "id": "recording-burst", "denials": sb["n"], "inFile": sb["failedRecorded"]})
     c.extra["recording_burst"] = sb
+    # many distinct callers within one clearing window: each keeps its own entry and count
+    mc = c13.robust_table([{"kind": "status_many_callers", "n": 1500 if c.tier != "thorough" else 6000}], "c11_many")[0]
+    if "entries" not in mc:
+        raise util.ToolError("status_many_callers driver: %s" % mc)
+    brows.append({"e": "pub", "id": "many-callers-total", "denials": mc["acked"], "inFile": mc["total"]})
+    brows.append({"e": "pub", "id": "many-callers-entries", "denials": mc["n"], "inFile": mc["entries"]})
+    brows.append({"e": "pub", "id": "many-callers-last", "denials": 3, "inFile": mc["lastCaller"]})
+    brows.append({"e": "pub", "id": "many-callers-first", "denials": 2, "inFile": mc["firstCaller"]})
+    c.extra["many_callers"] = mc
     ok, why, res = validate_trace(c, "ProxyTrace", proxylib.write_cfg("C11", ["P_C11_PublishedInStatusFile"], "pubb"), brows, "c11_pubb",
                                   count=1, timeout=300)
     if not ok:
@@ -128,6 +161,7 @@ def run(c):
             brows2 = burst_and_callers_rows(c)
             sb2 = c13.robust_table([{"kind": "status_burst", "n": sb["n"]}], "c11_sburst")[0]
             brows2.append({"e": "pub", "id": "recording-burst", "denials": sb2.get("n", 0), "inFile": sb2.get("failedRecorded", -1)})
+            brows2 += [r for r in brows if r["id"].startswith("many-callers")]
             bad2 = [r for r in brows2 if r["inFile"] != r["denials"]]
             if bad2 and not {r["id"] for r in bad2}.isdisjoint({r["id"] for r in bad}):
                 break
